@@ -92,7 +92,10 @@ def main():
     confs = [('1col-4vals', consts('{1}', '{0,1,2,3}', '{0,3}', 4 if q else 5, 1, 3), {0: '', 1: 'a', 2: 'b', 3: '{}'}, ',{}', True),
              ('2cols-3vals', consts('{1,2}', '{0,1,2}', '{0}', 3, 2, 2), {0: '', 1: 'x', 2: 'é'}, '', True),
              ('NA-symbol', consts('{1}', '{0,1,2}', '{1}', 4, 1, 2), {0: '', 1: 'NA', 2: 'z'}, 'NA', True),
-             ('ranking-task', consts('{1}', '{0,1,2}', '{0}', 4, 1, 2, rare=False), {0: '', 1: '1', 2: '01'}, '', False)]
+             ('ranking-task', consts('{1}', '{0,1,2}', '{0}', 4, 1, 2, rare=False), {0: '', 1: '1', 2: '01'}, '', False),
+             # the option names a SET of symbols: naming one twice (or a trailing comma, which names '' twice) changes nothing
+             ('repeated-symbol', consts('{1}', '{0,1,2}', '{1}', 4, 1, 2), {0: '', 1: 'NA', 2: 'z'}, 'NA,?,NA', True),
+             ('trailing-comma', consts('{1}', '{0,1,2}', '{0,1}', 4, 1, 2), {0: '', 1: 'NA', 2: 'z'}, ',NA,', True)]
     if not q:
         confs.append(('2cols-thr1', consts('{1,2}', '{0,1,2}', '{0,2}', 3, 1, 3), {0: '', 1: 'a', 2: '{}'}, ',{}', True))
     for label, c, vmap, syms, raretask in confs:
